@@ -32,7 +32,7 @@ PROPS = {
 TIERS = {
     # units per tier (each unit = one scenario under several schedules)
     "C02": {"quick": 2400, "thorough": 24000},
-    "C03": {"quick": 3200, "thorough": 64000},
+    "C03": {"quick": 8000, "thorough": 100000},
     "C04": {"quick": 3200, "thorough": 64000},
     "C05": {"quick": 6000, "thorough": 120000},
     "C06": {"quick": 3200, "thorough": 64000},
